@@ -147,25 +147,6 @@ func newIfDriver(p ifParams) *ifDriver {
 	}
 }
 
-func responseFrame(id int16, isLast bool, variant int) *frame.Frame {
-	var msg message.Message
-	if !isLast {
-		msg = &message.RowsResult{Metadata: &message.RowsMetadata{ColumnCount: 0, ContinuousPageNumber: int32(1 + variant%5), LastContinuousPage: false}, Data: message.RowSet{}}
-	} else {
-		switch variant % 4 {
-		case 0:
-			msg = &message.VoidResult{}
-		case 1:
-			msg = &message.RowsResult{Metadata: &message.RowsMetadata{ColumnCount: 0, ContinuousPageNumber: 9, LastContinuousPage: true}, Data: message.RowSet{}}
-		case 2:
-			msg = &message.RowsResult{Metadata: &message.RowsMetadata{ColumnCount: 0}, Data: message.RowSet{}}
-		default:
-			msg = &message.Unavailable{ErrorMessage: "x", Consistency: primitive.ConsistencyLevelOne, Required: 1}
-		}
-	}
-	return frame.NewFrame(primitive.ProtocolVersionDse2, id, msg)
-}
-
 func (d *ifDriver) step(s string) (res string, err error) {
 	d.nstep++
 	switch {
